@@ -1293,6 +1293,26 @@ func wgRunOne(b *BatchResult, prop string, seed, run uint64, p wgParams) {
 	} else if (prop == "C05" || prop == "C04") && r.chance(2) && injectEmptyDirect(r, m) {
 		b.Mix["models_with_empty_direct_assignment_under_operator"]++
 	}
+	if prop == "C05" || prop == "C04" {
+		// the first three workloads of every batch are the reproducers of the
+		// listed known findings, so that every run prints their KNOWN-FINDING line
+		// (and would report them as violations the day their matcher stops fitting)
+		this := func() *Expr { return &Expr{Kind: KThis} }
+		switch run {
+		case 0: // D12: an empty direct assignment as operand of an intersection
+			m = &Model{Schema: "1.1", Types: []*Type{{Name: "u0"}, {Name: "doc", Relations: []*Relation{
+				{Name: "b", Expr: this(), Direct: []Ref{{Type: "u0"}}},
+				{Name: "a", Expr: &Expr{Kind: KInter, Children: []*Expr{this(), {Kind: KComputed, Rel: "b"}}}}}}}}
+		case 1: // D12b: every operand of an exclusion is an empty direct assignment
+			m = &Model{Schema: "1.1", Types: []*Type{{Name: "u0"}, {Name: "doc", Relations: []*Relation{
+				{Name: "ab", Expr: this(), Direct: []Ref{{Type: "u0"}}},
+				{Name: "a", Expr: &Expr{Kind: KUnion, Children: []*Expr{{Kind: KExcl, Children: []*Expr{this(), this()}}, {Kind: KComputed, Rel: "ab"}}}}}}}}
+		case 2: // D12b, union form
+			m = &Model{Schema: "1.1", Types: []*Type{{Name: "u1"}, {Name: "team", Relations: []*Relation{
+				{Name: "a", Expr: this(), Direct: []Ref{{Type: "u1"}}},
+				{Name: "b", Expr: &Expr{Kind: KUnion, Children: []*Expr{{Kind: KUnion, Children: []*Expr{this(), this()}}, {Kind: KComputed, Rel: "a"}}}}}}}}
+		}
+	}
 	wl := &wlWG{Variant: "base", Model: m}
 	c := newWGCtx(wl)
 	// a per-workload budget: the library's cycle patching is super-linear in
